@@ -26,7 +26,7 @@ PRIMARY = {
     "Group": ["id", "name", "type", "definition", "data_arrays", "data_frames", "tags", "multi_tags",
               "sources", "metadata"],
     "Source": ["id", "name", "type", "definition", "sources", "metadata"],
-    "Section": ["id", "name", "type", "definition", "repository", "reference", "props", "sections"],
+    "Section": ["id", "name", "type", "definition", "repository", "reference", "link", "props", "sections"],
     "Property": ["id", "name", "definition", "unit", "uncertainty", "reference", "dependency",
                  "dependency_value", "value_origin", "values", "data_type"],
 }
@@ -126,6 +126,9 @@ class Model:
             if k == "Feature":
                 if isinstance(n["data"], dict) and n["data"].get("$ref") in ids:
                     n["data"] = {"$exc": "RuntimeError"}
+            if k == "Section":
+                if isinstance(n.get("link"), dict) and n["link"].get("$ref") in ids:
+                    n["link"] = None
 
 
 OWNED = {
